@@ -78,7 +78,7 @@ struct C19 : Property
 				sim_bpos += len;
 			}
 			else if (op.kind == "strappend")
-				op.a.push_back((int64_t)r.below(4));
+				op.a.push_back((int64_t)r.below(6));
 			else if (op.kind == "memset")
 			{
 				int64_t off;
@@ -182,7 +182,8 @@ struct C19 : Property
 		if (!s.pb)
 			ctx.fail("C19:new-failed", "printbuf_new failed without an injected fault");
 		verify(ctx, s, "new", true);
-		static const char *lits[4] = {"", "x", "null", "0123456789abcdefghijklmnopqrstuvwxyz"};
+		// (the macro appends sizeof(literal)-1 bytes: a literal may contain NUL bytes)
+		static const std::string lits[6] = {std::string(""), std::string("x"), std::string("null"), std::string("0123456789abcdefghijklmnopqrstuvwxyz"), std::string("ab\0cd", 5), std::string("\0", 1)};
 		for (size_t oi = 0; oi < p.ops.size(); oi++)
 		{
 			const Op &op = p.ops[oi];
@@ -210,7 +211,7 @@ struct C19 : Property
 			};
 			if (op.kind == "append" || op.kind == "fast" || op.kind == "strappend")
 			{
-				std::string data = op.kind == "strappend" ? std::string(lits[op.arg(0) & 3]) : op.data;
+				std::string data = op.kind == "strappend" ? lits[op.arg(0) % 6] : op.data;
 				int reqsize = (int)data.size();
 				bool negative = op.kind == "append" && !op.a.empty() && op.a[0] < 0;
 				if (negative)
@@ -235,12 +236,14 @@ struct C19 : Property
 				else
 				{
 					LibScope ls;
-					switch (op.arg(0) & 3)
+					switch (op.arg(0) % 6)
 					{
 					case 0: rc = printbuf_strappend(pb, ""); break;
 					case 1: rc = printbuf_strappend(pb, "x"); break;
 					case 2: rc = printbuf_strappend(pb, "null"); break;
-					default: rc = printbuf_strappend(pb, "0123456789abcdefghijklmnopqrstuvwxyz"); break;
+					case 3: rc = printbuf_strappend(pb, "0123456789abcdefghijklmnopqrstuvwxyz"); break;
+					case 4: rc = printbuf_strappend(pb, "ab\0cd"); break;
+					default: rc = printbuf_strappend(pb, "\0"); break;
 					}
 				}
 				is_append = true;
